@@ -27,6 +27,15 @@ CLAIMED = {
               'Correspondence: Field<UTCTimestamp/UTCTimeOnly/UTCDateOnly/LocalMktDate/MonthYear> print+parse, gmtime_r and GetTimeAsStringMS against the model (thorough: all days).'),
         note=('Trusted: Lean kernel; propext, Quot.sound, Classical.choice; the model of gmtime_r (civilFromDays) is validated against libc, not proved about libc; local time zones are out of scope; '
               'harness/timeh.cpp; tools/*.py. The 8-character MonthYear form shares the UTCDateOnly code path (C09_dateonly).')),
+    'C10': dict(
+        category='proof', design_ref='DESIGN.md section 7 C10',
+        technique='Lean 4 theorems (bisection invariant of std::lower_bound on strictly sorted tables) + realm tables regenerated from the freshly compiled schema and proved sorted by decide + differential correspondence through the generated field factory',
+        text=('Kernel-checked: for every strictly sorted domain table C10_set_index (an index is reported exactly for members and is the member\'s own index), C10_set_none, C10_set_valid '
+              '(validity = set membership), C10_range_valid / C10_range_index (range inclusion; only the bounds carry an index), and the generated fact C10_utest_sorted: all 105 enumerated domains '
+              'dumped from the schema compiled by the freshly built f8c are strictly sorted. Correspondence: every enumerated field x candidate values through BaseEntry::_create, get_rlm_idx, '
+              'is_valid and the description table.'),
+        note=('Trusted: Lean kernel; propext, Quot.sound, Classical.choice; model of std::lower_bound as libstdc++ bisection; string keys handled through an order-preserving integer code '
+              '(checked against native comparison by the Python oracle); harness/tables.cpp; only FIX42UTEST is dumped; Boolean fields are exercised on Y/N only (other text is not a value of the type).')),
 }
 
 PENDING_REASON = 'not yet covered: the Lean model and correspondence harness for this property have not been built in this framework yet (see DESIGN.md section 7 for the plan); no other technique is substituted'
